@@ -480,7 +480,8 @@ impl Scenario {
         })).ok();
         let (a, b) = (cont(&s), cont(&restored));
         self.bump("c08_restarts_compared");
-        if a != b { if tips > 0 { self.tag("F16"); } self.viol("C08", format!("restored state diverges from the original (tips at restart = {})", tips)); }
+        // known finding F16 covers only a state sealed WITHOUT a proposer action that still holds tips
+        if a != b { if tips > 0 && blk.proposer_action.is_none() { self.tag("F16"); } self.viol("C08", format!("restored state diverges from the original (tips at restart = {}, sealed {} a proposer action)", tips, if blk.proposer_action.is_some() { "with" } else { "without" })); }
         self.mode = Mode::S(restored);
         self.push_step(format!("OpRestart {} {}", header(&blk.header), names), 0, "restart");
     }
@@ -649,7 +650,12 @@ impl Scenario {
         }
         // sometimes list a covenant twice, or carry an unused / undecodable one (all are charged for)
         if !t.covenants.is_empty() && r.chance(1, 6) { let c0 = t.covenants[0].clone(); t.covenants.push(c0); self.bump("tx_duplicate_covenant"); }
-        if r.chance(1, 12) { t.covenants.push(Bytes::from(Covenant::from_ops(&[OpCode::Loop(3, 1), OpCode::Noop, OpCode::PushI(U256::ONE)]).to_bytes().to_vec())); self.bump("tx_unused_covenant"); }
+        if r.chance(1, 12) {
+            // an unused covenant is charged for like any other; sometimes one with nested loops, whose weight is a product
+            let ops = if r.chance(1, 2) { vec![OpCode::Loop(3, 1), OpCode::Noop, OpCode::PushI(U256::ONE)] }
+                      else { vec![OpCode::Loop(7, 3), OpCode::Loop(5, 2), OpCode::Noop, OpCode::Noop, OpCode::PushI(U256::ONE)] };
+            t.covenants.push(Bytes::from(Covenant::from_ops(&ops).to_bytes().to_vec())); self.bump("tx_unused_covenant");
+        }
         let mult = self.ustate().verif_fee_multiplier();
         let in_mel: u128 = inputs.iter().filter(|(_, c)| c.coin_data.denom == Denom::Mel).map(|(_, c)| c.coin_data.value.0).sum();
         let out_mel: u128 = t.outputs.iter().filter(|o| o.denom == Denom::Mel).map(|o| o.value.0).sum();
@@ -1557,6 +1563,98 @@ pub fn directed(r: &mut Rng) -> Vec<Scenario> {
         if interleaved(&deps) && interleaved(&swaps) && interleaved(&ws) { sc.bump("two_pools_all_interleaved"); }
         sc.op_batch(&deps);
         sc.block_end(None);
+        out.push(sc);
+    }
+    // a withdrawal request with a second output locked by another covenant is not a request: nothing is settled
+    {
+        let mut sc = base("d_withdraw_two_outputs", r, NetID::Custom02, 1000);
+        let at = sc.at();
+        sc.block_end(None);
+        let key = PoolKey::new(Denom::Mel, Denom::Sym);
+        let liq = key.liq_token_denom();
+        let m = sc.coin_of(Denom::Mel, 1 << 40).unwrap();
+        let sy = sc.coin_of(Denom::Sym, 1 << 30).unwrap();
+        let dep = sc.mk(r, TxKind::LiqDeposit, &[m, sy.clone()], vec![sc.cd(at, 1 << 30, Denom::Mel), sc.cd(at, 1 << 30, Denom::Sym), sc.cd(at, sy.1.coin_data.value.0 - (1 << 30), Denom::Sym)], key.to_bytes().to_vec());
+        sc.op_batch(&[dep]);
+        sc.block_end(None);
+        let other = sc.addr_of(|k| matches!(k, CovKind::SigNew(0)));
+        if let Some(h) = sc.wallet().coins.into_iter().find(|(_, c)| c.coin_data.denom == liq && c.coin_data.value.0 > 10) {
+            let m = sc.coin_of(Denom::Mel, 1 << 40).unwrap();
+            let mut t = Transaction::new(TxKind::LiqWithdraw);
+            t.outputs = vec![sc.cd(at, h.1.coin_data.value.0, liq)];
+            t.data = key.to_bytes();
+            sc.fixed_change = Some(other);          // the MEL change stays as output 1, under another covenant
+            let t = sc.finish_tx(r, t, &[m, h], 0, 0);
+            sc.fixed_change = Some(at);
+            sc.bump(if t.outputs.len() == 2 { "withdraw_with_two_outputs" } else { "withdraw_with_one_output" });
+            sc.op_batch(&[t]);
+            sc.block_end(None);
+        }
+        out.push(sc);
+    }
+    // a staked output as the SECOND input carrying a covenant that an earlier, unlocked input already carries
+    {
+        let mut sc = base("d_staked_second_input", r, NetID::Custom02, 1000);
+        let at = sc.at();
+        sc.block_end(None);
+        let m = sc.coin_of(Denom::Mel, 1 << 40).unwrap();
+        let sy = sc.coin_of(Denom::Sym, 1 << 30).unwrap();
+        let epoch = sc.ustate().verif_height().0 / STAKE_EPOCH;
+        let doc = StakeDoc { pubkey: sc.keys.pk[0], e_start: epoch + 1, e_post_end: epoch + 3, syms_staked: CoinValue(1 << 20) };
+        let mut st = Transaction::new(TxKind::Stake);
+        st.outputs = vec![sc.cd(at, 1 << 20, Denom::Sym), sc.cd(at, sy.1.coin_data.value.0 - (1 << 20), Denom::Sym)];
+        st.data = Bytes::from(doc.stdcode());
+        let st = sc.finish_tx(r, st, &[m, sy], 0, 0);
+        sc.op_batch(&[st.clone()]);
+        sc.block_end(None);
+        let staked = (CoinID::new(st.hash_nosigs(), 0), CoinDataHeight { coin_data: st.outputs[0].clone(), height: BlockHeight(1) });
+        let free = sc.coin_of(Denom::Mel, 1 << 40).unwrap();
+        // unlocked coin first, staked coin second (same covenant), and the other way round
+        let t1 = sc.mk(r, TxKind::Normal, &[free.clone(), staked.clone()], vec![sc.cd(at, 1 << 20, Denom::Sym), sc.cd(at, 1 << 30, Denom::Mel)], vec![]);
+        sc.op_batch(&[t1]);
+        let t2 = sc.mk(r, TxKind::Normal, &[staked, free], vec![sc.cd(at, 1 << 20, Denom::Sym), sc.cd(at, 1 << 30, Denom::Mel)], vec![]);
+        sc.op_batch(&[t2]);
+        sc.block_end(None);
+        out.push(sc);
+    }
+    // tips that add up to more than the largest coin value, sealed with an action, then a restart
+    {
+        let mut sc = base("d_huge_tips", r, NetID::Custom02, 1000);
+        let at = sc.at();
+        sc.block_end(None);
+        let mut fs = vec![];
+        for i in 0..2u8 {
+            let mut f = Transaction::new(TxKind::Faucet);
+            f.outputs = vec![sc.cd(at, 1000 + i as u128, Denom::Mel)];
+            let mut f = sc.finish_tx(r, f, &[], 0, 0);
+            f.fee = CoinValue((1u128 << 120) - 7 - i as u128);
+            fs.push(f);
+        }
+        sc.op_batch(&fs);
+        let a = act(&sc, 3);
+        if sc.op_seal(a) == 0 {
+            sc.op_restart();
+            sc.op_next();
+            let m = sc.coin_of(Denom::Mel, 1 << 40).unwrap();
+            let t = sc.mk(r, TxKind::Normal, &[m], vec![sc.cd(at, 1 << 30, Denom::Mel)], vec![]);
+            sc.op_batch(&[t]);
+            let a = act(&sc, -3);
+            if sc.op_seal(a) == 0 { sc.op_restart(); sc.op_next(); }
+        }
+        out.push(sc);
+    }
+    // a proposer reward of zero (empty fee pool, no tips, subsidy not active yet): the block still commits to
+    // the reward destination
+    {
+        let mut sc = Scenario::new("d_zero_reward", r, NetID::Testnet, 1000, 0);
+        sc.fixed_change = Some(sc.at());
+        let at = sc.at();
+        let a = Some(ProposerAction { fee_multiplier_delta: 2, reward_dest: at });
+        sc.op_seal(None);
+        sc.op_apply_block(&[], a, 15, r);
+        sc.op_apply_block(&[], a, 14, r);
+        sc.op_apply_block(&[], a, 13, r);
+        sc.op_apply_block(&[], a, 0, r);
         out.push(sc);
     }
     // F25: a pool created with an empty side, then a second deposit
